@@ -610,10 +610,17 @@ pub fn remove_race<F: Fl, const KIND: u8, const OUTER: usize>(c: &LifeCfg) {
             _ => 3,
         };
         let v = F::queue_view(unsafe { (*wp::<F>()).tx[0].as_ref().unwrap() });
-        assert!(
-            v.streams == expect,
-            "C11: after two concurrent changes of the stream list the list does not hold exactly the subscribed streams (a stream no longer limits the sender, or a removed one still does)"
-        );
+        if KIND == 3 {
+            assert!(
+                v.streams == expect,
+                "C10: after two concurrent add_stream calls the stream list does not hold every subscribed stream (one of the new streams does not limit the sender)"
+            );
+        } else {
+            assert!(
+                v.streams == expect,
+                "C11: after two concurrent changes of the stream list the list does not hold exactly the subscribed streams (a stream no longer limits the sender, or a removed one still does)"
+            );
+        }
     }
     if KIND == 4 {
         finish::<F>(&Finish {
